@@ -39,6 +39,10 @@ func main() {
 			wireCheck(c, "C02", true, nil)
 		case "C03":
 			checkC03(c)
+		case "C04":
+			codecCheck(c, `{"C04"}`)
+		case "C05":
+			codecCheck(c, `{"C05"}`)
 		case "C09":
 			wireCheck(c, "C09", false, nil)
 		case "C10":
